@@ -21,8 +21,43 @@ const (
 	single // a flow that needs no correlation: one reporting stream fills both node sides
 )
 
-func baseRec(k agg.Key, who int) agg.Rec {
+// flavours of a flow that needs no correlation (who == single)
+const (
+	intraNode = iota
+	toExternal
+	fromExternal
+	interNodeEgressDrop   // denied at the source node: only the source node ever reports
+	interNodeEgressReject
+	interNodeIngressReject // rejected at the destination node
+	numFlavours
+)
+
+func baseRec(k agg.Key, who int) agg.Rec { return baseRecF(k, who, intraNode) }
+
+func baseRecF(k agg.Key, who, flavour int) agg.Rec {
 	r := agg.Rec{Key: k, TCPState: "ESTABLISHED", EndReason: registry.ActiveTimeoutReason}
+	if who == single && flavour != intraNode {
+		switch flavour {
+		case toExternal:
+			r.FlowType = registry.FlowTypeToExternal
+			r.SrcPod, r.SrcNS, r.SrcNode = "pod1", "ns1", "node1"
+		case fromExternal:
+			r.FlowType = registry.FlowTypeFromExternal
+			r.DstPod, r.DstNS, r.DstNode = "pod2", "ns2", "node2"
+		case interNodeEgressDrop, interNodeEgressReject:
+			r.FlowType = registry.FlowTypeInterNode
+			r.SrcPod, r.SrcNS, r.SrcNode = "pod1", "ns1", "node1"
+			r.EgressAction = registry.NetworkPolicyRuleActionDrop
+			if flavour == interNodeEgressReject {
+				r.EgressAction = registry.NetworkPolicyRuleActionReject
+			}
+		case interNodeIngressReject:
+			r.FlowType = registry.FlowTypeInterNode
+			r.DstPod, r.DstNS, r.DstNode = "pod2", "ns2", "node2"
+			r.IngressAction = registry.NetworkPolicyRuleActionReject
+		}
+		return r
+	}
 	switch who {
 	case fromSrc:
 		r.FlowType = registry.FlowTypeInterNode
@@ -118,11 +153,25 @@ func Check_Step() {
 	who := sx.Choose("reporter", 3)
 	// bring the flow into existence through the real entry point
 	other := sx.Choose("otherNodeReported", 2) == 1
+	flavour := intraNode
+	if who == single {
+		flavour = sx.Choose("noCorrelationFlavour", numFlavours)
+	}
 	switch who {
 	case single:
-		r0 := baseRec(k, single)
+		r0 := baseRecF(k, single, flavour)
 		r0.End = 1
+		r0.Stat = symStats("r0-stat")
 		feed(a, r0)
+		// the creating record of a one-stream flow fills both node sides
+		if fr0, ok := a.VerifFlowRecord(k.FlowKey()); ok {
+			Q0 := readState(fr0.Record)
+			okc := sideEq(Q0.src, Q0.dst)
+			for i := range r0.Stat {
+				okc = sx.And(okc, Q0.src.stat[i] == r0.Stat[i], Q0.common.stat[i] == r0.Stat[i])
+			}
+			sx.Assert(okc, "creating-record-of-a-one-stream-flow-does-not-fill-both-sides")
+		}
 	default:
 		first := who
 		if other {
@@ -173,7 +222,7 @@ func Check_Step() {
 	}
 
 	// incoming record r
-	r := baseRec(k, who)
+	r := baseRecF(k, who, flavour)
 	r.Stat = symStats("r-stat")
 	r.Start = sx.U32("r-start")
 	r.End = sx.U32("r-end")
